@@ -189,3 +189,45 @@ func H_C02_top_pp() {
 	o := &vW1{A: vStr("A"), B: vndInt("B")}
 	vRun("C02 **T", &o)
 }
+
+// ---- the other three walkers: one clause per violated rule, in order, none trailing ----
+
+func H_C02_var_rules() {
+	switch vndChoice("kind", 3) {
+	case 0:
+		vRunVar("C02 Var(string) rule list", vStr("s"), "r1,,r1", "nosuch,required|need s", "exist")
+	case 1:
+		vRunVar("C02 Var(int) rule list", vndInt("i"), "required,r1,zz,r1")
+	case 2:
+		var s []string
+		if vndBool("nonempty") {
+			s = []string{vStr("s0")}
+		}
+		vRunVar("C02 Var([]string) rule list", s, "r1", "required", "r1")
+	}
+}
+
+func H_C02_map_rules() {
+	rm := NewRule().Set("k", "r1,,r2", "nosuch,required|need k").Set("j", "exist,r2")
+	switch vndChoice("kind", 3) {
+	case 0:
+		vRunMap("C02 Map one key", map[string]string{"k": vStr("k")}, rm)
+	case 1:
+		vRunMap("C02 Map other key", map[string]int{"j": vndInt("j")}, rm)
+	case 2:
+		vRunMap("C02 Map slice of maps", []map[string]string{{"k": vStr("k0")}, {"k": vStr("k1")}}, NewRule().Set("k", "required,r1"))
+	}
+}
+
+func H_C02_url_rules() {
+	rm := NewRule().Set("k", "r1,,r2", "nosuch,required|need k").Set("j", "exist,r2")
+	v, w := vPlainText("v", 1), vPlainText("w", 1)
+	switch vndChoice("shape", 3) {
+	case 0:
+		vRunUrl("C02 Url k", "h?k="+v, []string{"k"}, []string{v}, rm)
+	case 1:
+		vRunUrl("C02 Url k,j", "h?k="+v+"&j="+w, []string{"k", "j"}, []string{v, w}, rm)
+	case 2:
+		vRunUrl("C02 Url repeated key", "h?k="+v+"&k="+w, []string{"k", "k"}, []string{v, w}, NewRule().Set("k", "required,r1"))
+	}
+}
